@@ -402,13 +402,16 @@ class ImplRun:
         a = self.a
         k = cmd[0]
         if k == 'new':
+            # `nr_qubits` is advisory (nothing in the package reads it): circuits are declared with 0, 1, 2 qubits in turn, whatever
+            # qubits they are then given (seeded change C07-m7: an index filter that trusts the declared number)
+            nq = (0, 1, 2, 0)[len(self.circs) % 4]
             if len(cmd) > 2 and cmd[2] is not None:
                 # a circuit constructed with an explicit relation to an existing operation
                 self.implicit_only = False
-                self.circs.append(a.DeclarativeCircuit(relation=a.RelationLink(self.handles[cmd[2][0]], a.RT[cmd[2][1]]),
+                self.circs.append(a.DeclarativeCircuit(nr_qubits=nq, relation=a.RelationLink(self.handles[cmd[2][0]], a.RT[cmd[2][1]]),
                                                        repetition_strategy=self._rep(cmd[1])))
             else:
-                self.circs.append(a.DeclarativeCircuit(repetition_strategy=self._rep(cmd[1])))
+                self.circs.append(a.DeclarativeCircuit(nr_qubits=nq, repetition_strategy=self._rep(cmd[1])))
             self.shadow.append({'rep': cmd[1], 'items': []})
         elif k == 'gdur':
             if self.in_override:
